@@ -199,10 +199,15 @@ impl GitVcs {
     }
 
     fn calculate_distance(&self, tag: &str) -> Result<u32> {
-        let output = self.run_git_command(&["rev-list", "--count", &format!("{tag}..HEAD")])?;
-        output
-            .parse::<u32>()
-            .map_err(|e| ZervError::CommandFailed(format!("Failed to parse distance: {e}")))
+        // `git rev-list <tag>..HEAD` stops walking early based on commit dates and miscounts
+        // when dates are out of order (clock skew, imported history). The tagged commit is an
+        // ancestor of HEAD, so the difference of two unrestricted counts is exact.
+        let count = |rev: &str| -> Result<u32> {
+            self.run_git_command(&["rev-list", "--count", rev])?
+                .parse::<u32>()
+                .map_err(|e| ZervError::CommandFailed(format!("Failed to parse distance: {e}")))
+        };
+        Ok(count("HEAD")?.saturating_sub(count(tag)?))
     }
 
     /// Get current commit hash (full)
